@@ -224,6 +224,21 @@ def judge(cname, name, h, p, ck, settings, wrongs=True):
             if bad is not False:
                 out.append((f"C17|{cname}|verify:{name}:wrong_password_accepted",
                             f"{cname}.verify({q!r} [{label}], {h!r}) = {bad!r}; the hash was made from {p!r}"))
+    # the same answers under every user category the context's configuration names (ext.django passes 'staff' /
+    # 'superuser'; custom_app_context has 'admin'): a category tunes costs, it does not take schemes away
+    try:
+        cats = sorted({k.split("__")[0] for k in C.to_dict() if k.count("__") == 2})
+    except Exception:  # noqa: BLE001
+        cats = []
+    for cat in cats:
+        try:
+            got_c = C.identify(h, category=cat)
+            ok_c = C.verify(p, h, category=cat, **ck)
+        except Exception as e:  # noqa: BLE001
+            out.append((f"C17|{cname}|category:{name}:raises:{_exc(e)}", f"{cname}: identify / verify of {h!r} under category {cat!r} raised {e!r}"))
+            continue
+        if got_c != name or (ok_c is not True and name not in HS.DISABLED):
+            out.append((f"C17|{cname}|category:{name}:differs", f"{cname} under category {cat!r}: identify({h!r}) = {got_c!r}, verify(own password) = {ok_c!r}; without a category {name!r} / True"))
     if name == "plaintext" and isinstance(h, str) and not h.isascii():
         # the stored value as BYTES (how a file-backed store such as HtpasswdFile hands it over): a plaintext entry is
         # not ASCII in general, and every scheme listed before the catch-all one gets to look at it first
